@@ -102,8 +102,35 @@ theorem run_stamps (s : Sys F) (g : Nat → Stamp) :
 
 /-- The verdicts the arm at `now` computes, by conn id. -/
 def armStamp (v : Views F G) (s : Full F G) (now : Nat) : Nat → Stamp :=
-  let s2 := (afterHk s.sys now).1
-  stampOf (Classifier.classify s.cls (clsTick v s2.links)).2 (LinkCc.tickAll s.ctl (ccConns v s2.links) now)
+  stampOf (Classifier.classify s.cls (clsTick v (afterHk s.sys now).1.links)).2
+    (LinkCc.tickAll s.ctl (ccConns v (afterHk s.sys now).1.links) now)
+
+theorem stampOf_weak (res : Classifier.Result) (ctl : LinkCc.Ctl G) (id : Nat) :
+    (stampOf res ctl id).weak = ((res.perLink.find? (·.id == id)).map (·.weak)).getD false := rfl
+
+theorem stampOf_ccTarget (res : Classifier.Result) (ctl : LinkCc.Ctl G) (id : Nat) :
+    (stampOf res ctl id).ccTarget = ((ctl.get id).map fun st => (LinkCc.snapshot st).target).getD 0 := by
+  unfold stampOf; cases ctl.get id <;> rfl
+
+theorem stampOf_ccBackingOff (res : Classifier.Result) (ctl : LinkCc.Ctl G) (id : Nat) :
+    (stampOf res ctl id).ccBackingOff =
+      ((ctl.get id).map fun st => decide ((LinkCc.snapshot st).state = .backingOff)).getD false := by
+  unfold stampOf; cases ctl.get id <;> rfl
+
+theorem stampOf_lossDegraded (res : Classifier.Result) (ctl : LinkCc.Ctl G) (id : Nat) :
+    (stampOf res ctl id).lossDegraded = ((ctl.get id).map fun st => (LinkCc.snapshot st).lossDegraded).getD false := by
+  unfold stampOf; cases ctl.get id <;> rfl
+
+omit [Scalar F] in
+theorem stamped_weak (l : FLink F) (st : Stamp) : (FLink.stamped l st).weak = st.weak := rfl
+omit [Scalar F] in
+theorem stamped_ccTarget (l : FLink F) (st : Stamp) : (FLink.stamped l st).ccTarget = st.ccTarget := rfl
+omit [Scalar F] in
+theorem stamped_ccBackingOff (l : FLink F) (st : Stamp) : (FLink.stamped l st).ccBackingOff = st.ccBackingOff := rfl
+omit [Scalar F] in
+theorem stamped_lossDegraded (l : FLink F) (st : Stamp) : (FLink.stamped l st).lossDegraded = st.lossDegraded := rfl
+omit [Scalar F] in
+theorem stamped_connId (l : FLink F) (st : Stamp) : (FLink.stamped l st).core.connId = l.core.connId := rfl
 
 /-- The shell events of the arm at `now`: `sync_conn_timeout`, `handle_housekeeping`, then one `stamp` per link with
 the verdicts of the classifier and the controller. -/
